@@ -39,7 +39,7 @@ META = {
 
 def bounds(tier):
     q = tier == "quick"
-    return {"subjects": [s.name for s in SP.SUBJECTS if s.quick or not q], "pools": ["line4", "dup4"] if q else ["line5", "dup5", "grid5"],
+    return {"subjects": [s.name for s in SP.SUBJECTS if s.quick or not q], "pools": ["far4", "dup4"] if q else ["far5", "dup5", "grid5", "line5"],
             "pools_expensive": ["dup4"] if q else ["dup5"], "batch_sizes": [1, 2, 3], "deviation_bound": 1 if q else 2, "max_tapes": 40 if q else 200,
             "oracle_answers": "all of {0,1}^k per revealed batch"}
 
